@@ -35,7 +35,13 @@ m = dict(
                                  "real library; TLC validates the recorded traces against the trace specification "
                                  "(conformance + property verdicts)")],
     checks=checks,
-    notes="See DESIGN.md. known_findings.json lists recorded and repaired defects.",
+    notes=("See DESIGN.md (section 0 records what was built, the defects found and repaired in /repo, the open findings, "
+           "the false alarms corrected and the 80 independently seeded changes with the check that catches each). "
+           "known_findings.json lists the open findings (KNOWN-FINDING lines, matched on property + field + site) and the "
+           "repaired ones (fixed entries suppress nothing). Exit codes: 0 held, 1 + VIOLATION line, 2 machinery / design-level "
+           "failure (never a verdict). C17 additionally carries Apalache and TLAPS obligations (tools/apalache_c17.sh). "
+           "tools/seed_regress.sh re-applies every seeded change in a scratch worktree; tools/thorough_pass.py runs every "
+           "family once at the thorough tier."),
     not_applicable=[dict(property_id=k, reason=v) for k, v in sorted(NOT_APPLICABLE.items()) if k not in PROPS],
 )
 json.dump(m, open(os.path.join(VERIF, "MANIFEST.json"), "w"), indent=1)
